@@ -14,7 +14,9 @@ and the oracle compares the XMAP text: shuf == full line for line; qid == sub an
 '# coma', '# Reference Maps From', '# Query Maps From'); for every query present in two runs its records (every column except
 XmapEntryID, in every output file, in file order) are identical text in full / sub / add; no record names a query that was not given.
 Model tie (`run_model`): program_run, with the seeds captured in ONE run, must reproduce the files of ANOTHER run on other
-query molecules (full-run seeds -> the sub run; add-run seeds -> the full run), plus the plain tie full -> full."""
+query molecules (full-run seeds -> the sub run; add-run seeds -> the full run), plus the plain tie full -> full.
+Capstone tie (`e2e_program_files`, harness/program_files.py): whole real runs against Program.program_files, the one function from the rows of
+the two CMAP files (independent text parser) and the command line to every data line of every XMAP file, with the executable seeding stage."""
 import os, json, random
 from ..driver import Stream
 from .. import e2e, e2e_streams as es, common
@@ -24,7 +26,9 @@ ID = 'C10'
 RULE = ('real COMA runs on generated data sets (2 references x 200 labels, ~20-40 query molecules of kinds exact/noisy/indel/chimera/stretch/'
         'partial on both strands) in the output modes best and all (thorough: all four, several parameter sets): full run vs rows of both '
         'files shuffled, queries physically removed, -qId, -rId vs physically restricted reference file, unrelated queries added; '
-        'non-trivial = data set/mode whose full run has a first-pass record and, in the modes other than best, also an aligned-rest or a joined record')
+        'non-trivial = data set/mode whose full run has a first-pass record and, in the modes other than best, also an aligned-rest or a joined record'
+        + '; e2e_program_files: whole real runs (3 quick / 12 thorough; duplicated contig, rows shuffled with the molecules first appearing in descending id order, '
+        'label-less molecules, -rId / -qId incl. absent ids, four modes, several option sets) against Program.program_files on independently parsed CMAP rows: every data line byte for byte')
 TRUSTED = ['adapter harness/e2e.py, harness/e2e_runner.py (capture through COMA\'s extension mechanism)', 'independent XMAP/CMAP text parsers in harness/e2e.py']
 ASSUMPTIONS = ['coordinates are multiples of 0.5 and parameters lie on the exact grid (model tie only; the text oracle needs nothing)',
                'one end-marker row per molecule in the CMAP files (C17: with two, the first in file order wins)',
@@ -326,4 +330,7 @@ class RunModel(es.RunModelStream):
         return json.dumps([case['dataset'], case['mode'], case['tie']], sort_keys=True) if out['mode']['files'].get('main', {}).get('rows') else None
 
 
-STREAMS = [Local(), RunModel()]
+from ..program_files import ProgramFilesStream
+
+# the capstone: real runs (row-shuffled files, label-less molecules, -rId / -qId, all modes) reproduced byte for byte by Program.program_files
+STREAMS = [Local(), RunModel(), ProgramFilesStream()]
